@@ -3,6 +3,7 @@ from fractions import Fraction
 
 import usersemirings as us
 from common import MachineryError
+from project import OutOfModelRange
 from gops import SR, srmodel, dec_w, unt, ustr, guarded, CallTimeout, build, coerce, _skeleton  # noqa: F401
 from project import enc_w, tname, seq, cfg_proj
 from genlm.grammar.wfsa.base import WFSA as BaseWFSA, EPSILON
@@ -375,6 +376,8 @@ def event(fn, args, site=None, feat=None, timeout=30):
         except CallTimeout:
             # a slow machine must not look like a hanging library: one more attempt with four times the budget
             e = guarded(lambda: FUNCS[fn](args), 4 * timeout)
+    except OutOfModelRange:
+        e = {"op": fn, "skip": "numeric-range"}      # (a weight beyond the model's number range: counted, not judged)
     except MachineryError:
         raise
     except CallTimeout:
